@@ -14,6 +14,7 @@ import (
 	"bytes"
 	"runtime"
 	"strconv"
+	"strings"
 	"sync"
 	"time"
 
@@ -48,6 +49,9 @@ type Sched struct {
 	pending  int            // registered calls that have not returned
 	activity uint64         // bumped on every arrival / return
 	Steps    int            // releases so far
+	coreGid  uint64         // the goroutine that last reached a core:* point (the core loop)
+	judge    bool           // a request is in progress: accesses to loop-owned state are judged
+	Foreign  []string       // "own:*" points reached, while judged, by a goroutine other than the core loop
 }
 
 // New creates a scheduler that parks goroutines at the named points.
@@ -76,6 +80,17 @@ func goid() uint64 {
 func (s *Sched) Hook(name string) {
 	s.mu.Lock()
 	s.counts[name]++
+	if strings.HasPrefix(name, "own:") {
+		// state owned by the core loop: while a request is being handled nobody else may touch it
+		if g := goid(); s.judge && s.coreGid != 0 && g != s.coreGid {
+			s.Foreign = append(s.Foreign, name)
+		}
+		s.mu.Unlock()
+		return
+	}
+	if strings.HasPrefix(name, "core:") {
+		s.coreGid = goid()
+	}
 	if s.pass || !s.park[name] {
 		s.mu.Unlock()
 		return
@@ -115,6 +130,20 @@ func (s *Sched) Go(call string, f func() string) {
 		s.mu.Unlock()
 	}()
 	<-started
+}
+
+// SetJudge switches the judging of accesses to loop-owned state on or off.
+func (s *Sched) SetJudge(b bool) {
+	s.mu.Lock()
+	s.judge = b
+	s.mu.Unlock()
+}
+
+// ForeignAccesses returns the judged accesses made outside the core loop.
+func (s *Sched) ForeignAccesses() []string {
+	s.mu.Lock()
+	defer s.mu.Unlock()
+	return append([]string(nil), s.Foreign...)
 }
 
 // Record appends a harness observation.
